@@ -4,7 +4,7 @@ Same engine as C01 in path mode: product of (executed regexes of glob.compile) x
 automaton built from the AST) x (path domain tracker); every reachable state must satisfy
 in_domain => (impl accepts <=> reference accepts).  Decides the property for all paths of every length.
 """
-from .. import bind, run, pat, ref_aut, impl, alphabet, product, sre_aut
+from .. import bind, run, pat, ref_aut, impl, alphabet, product, sre_aut, langcmp
 from wcmatch import glob as G
 
 ID = 'C02'
@@ -111,6 +111,14 @@ def check_instance(seq, fs, res, text=None, ast=None):
                 acc_in += 1
             else:
                 rej_in += 1
+        # the matcher applies its regex lists to the whole name: the same witness followed by a newline
+        tn = t + '\n'
+        truth = langcmp.regex_accepts(m, tn)
+        res.n['traces_validated_against_impl'] += 1
+        if bool(m.match(tn)) != truth:
+            res.add_violation(ID, run.viol('matcher-application', {'pattern': text, 'flags': fs, 'name': tn}, {'match': truth},
+                                           {'match': bool(m.match(tn))}))
+            return
     if acc_in and rej_in:
         res.n['distinct_nontrivial'] += 1
     res.outcomes.add('agree' if not bad else 'disagree')
@@ -246,6 +254,10 @@ def replay(v):
             return {'violates': False, 'observed': 'compiles'}
         except Exception as e:  # noqa: BLE001
             return {'violates': True, 'observed': type(e).__name__}
+    if v['kind'] == 'matcher-application':
+        m = G.compile(p, flags=flags)
+        got, truth = bool(m.match(inp['name'])), langcmp.regex_accepts(m, inp['name'])
+        return {'violates': got != truth, 'observed': {'match': got}}
     got = G.globmatch(inp['name'], p, flags=flags)
     got2 = bool(G.globfilter([inp['name']], p, flags=flags))
     got3 = G.compile(p, flags=flags).match(inp['name'])
